@@ -20,14 +20,17 @@ class C08(Spec):
             "soundness theorems (check_sound, safety, progress) then give lock ownership at every state access and frame, mutual "
             "exclusion and progress for ALL interleavings. (2) observation: stress runs of the real ui.State with one goroutine per "
             "key, a 1 ms resize poller and loaders with random latency; a TryLock probe inside the output callback (frame emitted "
-            "while nobody holds the lock), an overlap detector and a progress watchdog; thorough also builds with -race. "
+            "while nobody holds the lock), an overlap detector and a progress watchdog; thorough also runs the stress under -race. "
+            "(3) fan-outs: posts with several authors, recipients and attachments, collections, activities, page chains, feeds and "
+            "listings fetched from the simulator, built and harvested by the real code in a -race build; any DATA RACE report is a violation. "
             "non-trivial = the run contained a feed command and at least 20 keys.")
     assumptions = ["PARTIAL: Go's memory model, scheduler and runtime are outside the model; the mutex is modelled as an atomic owner flag",
                    "page.frontier / page.children / page.basepoint follow an ownership protocol (handed to the single loader of their "
                    "direction via loadingUp/loadingDown) rather than the mutex; the translator treats their reads inside goroutine "
                    "literals as non-events and the race detector observes the protocol",
                    "Block steps (network, child processes) eventually return (C05)",
-                   "the fan-outs in pub/splicer (disjoint slots + WaitGroup) are observed by the race detector only"]
+                   "the fan-outs in pub/splicer/client (disjoint slots + WaitGroup) are not modelled: they are run under the Go race detector "
+                   "(every tier) through the real constructors, Harvest, the splicer and fetches against the simulator"]
 
     def batches(self, rng, tier):
         return []
@@ -107,8 +110,84 @@ class C08(Spec):
                     report.failures.append((c, {"impl": None, "model": None, "oracles": {}, "panic": None},
                                             "the Go race detector reported a data race during the stress run: " + info["impl_stderr"][-1500:]))
             report.extra["stress_" + kind] = "ran"
+        # ---- (3) the fan-outs of pub / splicer / client (authors, recipients, attachments, replies, collection pages, feed sources):
+        #          the real constructors and Harvest under the Go race detector, on embedded documents and against the simulator
+        self.fanout_race_run(scratch, rng, tier, report)
         if discipline_broken:
             raise Broken("proof", discipline_broken, q.stdout[-3000:])
+
+    def fanout_race_run(self, scratch, rng, tier, report):
+        import asgen
+        import c06
+        import c09
+        import c10
+        import c11
+        import netgen
+        race_bin = os.path.join(scratch.dir, "verifharness.fanout.race.bin")
+        renv = dict(GOENV, CGO_ENABLED="1")
+        pr = subprocess.run(["go", "build", "-race", "-tags", "verif,vpub,vnet,vui", "-o", race_bin, "./verifharness"], cwd=scratch.src, env=renv,
+                            stdout=subprocess.PIPE, stderr=subprocess.STDOUT, text=True)
+        if pr.returncode != 0:
+            report.extra["fanout_race_build_error"] = pr.stdout[-500:]
+            raise Broken("correspondence", "the race-detector build of the harness (tags verif,vpub,vnet,vui) failed", pr.stdout[-2000:])
+        n = 60 if tier == "quick" else 1500
+        cases = []
+        for _ in range(n):
+            r = rng.random()
+            if r < 0.45:
+                doc = asgen.post(rng, 2, 0.05)
+                doc.setdefault("attributedTo", [asgen.actor(rng, 0, 0.0) for _ in range(rng.randint(2, 5))])
+                doc.setdefault("audience", [asgen.actor(rng, 0, 0.0) for _ in range(rng.randint(2, 5))])
+                doc.setdefault("attachment", [asgen.link(rng) for _ in range(rng.randint(2, 5))])
+                cases.append(c06.item_case(doc, 0, [40], [1, 2]))
+            elif r < 0.6:
+                cases.append(c06.item_case(asgen.collection(rng, 2, 0.05), 3, [40], [1]))
+            elif r < 0.7:
+                cases.append(c06.item_case(asgen.activity(rng, 2, 0.05), 2, [40], [1]))
+            elif r < 0.85:
+                cases.append(c10.SPEC.rand_case(rng))
+            else:
+                cases.append(c11.SPEC.rand_case(rng))
+        b1 = Batch("c08-fanout", cases, env={"VERIF_CASE_TIMEOUT": "60"}, timeout=900, correspondence="pub/splicer fan-outs under the race detector")
+        b1.parallel = False
+        base = netgen.pick_port_base(rng)
+        ncases = []
+        for _ in range(n // 3):
+            r = rng.random()
+            if r < 0.4:
+                ncases.append(c09.case_of(c09.SPEC.actor_world(rng, base)))
+            elif r < 0.7:
+                ncases.append(c09.case_of(c09.SPEC.post_world(rng, base)))
+            else:
+                ncases.append(c10.SPEC.remote_world(rng, base).case())
+        b2 = Batch("c08-fanout-net", ncases, config="[network]\ntimeout_seconds = 2\n", env={"VERIF_SIM_PORT_BASE": str(base), "VERIF_CASE_TIMEOUT": "60"},
+                   timeout=900, correspondence="client/pub fetch fan-outs against the simulator under the race detector")
+        b2.parallel = False
+        # this run looks for data races only: results are compared by the properties that own these operations
+        sub = runner.Report()
+        saved = (self.raw_compare, self.oracle_filter, self.no_compare_ops)
+        self.oracle_filter, self.no_compare_ops = {"__none__"}, ("item", "harvest", "splice", "net")
+        try:
+            runner.run_batches(self, scratch, race_bin, [b1, b2], sub)
+        finally:
+            self.raw_compare, self.oracle_filter, self.no_compare_ops = saved
+        report.evaluations += sub.evaluations
+        report.batch_info += sub.batch_info
+        for k, v in sub.hist.items():
+            report.count("fanout:" + k, v)
+        for (c, r, why) in sub.failures:
+            if "panicked" in why:
+                report.failures.append((c, r, why))
+        for info in sub.batch_info:
+            err = info.get("impl_stderr") or ""
+            if "DATA RACE" in err:
+                c = (cases + ncases)[0]
+                report.failures.append((c, {"impl": None, "model": None, "oracles": {}, "panic": None},
+                                        "the Go race detector reported a data race in a pub/splicer/client fan-out (batch %s): %s" % (info.get("batch"), err[err.index("DATA RACE") - 20:][:2500])))
+            elif info.get("impl_rc") not in (0,):
+                report.errors.append((None, {"impl": None, "model": None, "oracles": {}, "panic": None, "err": "race harness exited %s" % info.get("impl_rc")},
+                                      "race-detector harness exited %s: %s" % (info.get("impl_rc"), err[-400:])))
+        report.extra["fanout_race_run"] = "ran (%d + %d cases)" % (len(cases), len(ncases))
 
     def nontrivial(self, case, res):
         return len(case.meta["keys"]) >= 20 and 58 in case.meta["keys"]
